@@ -209,60 +209,70 @@ def run_type_assignment_on_h5ad_cpu(
         precompute_path=precomputed_stats_path,
         for_marker_selection=False)
 
-    chunk_index = -1
-    for chunk in chunk_iterator:
-        chunk_index += 1
-        r0 = chunk[1]
-        r1 = chunk[2]
-        name_chunk = query_cell_names[r0:r1]
+    try:
+        chunk_index = -1
+        for chunk in chunk_iterator:
+            chunk_index += 1
+            r0 = chunk[1]
+            r1 = chunk[2]
+            name_chunk = query_cell_names[r0:r1]
 
-        data = chunk[0]
+            data = chunk[0]
 
-        data = CellByGeneMatrix(
-            data=data,
-            gene_identifiers=all_query_identifiers,
-            normalization=normalization)
+            data = CellByGeneMatrix(
+                data=data,
+                gene_identifiers=all_query_identifiers,
+                normalization=normalization)
 
-        if data.normalization != 'log2CPM':
-            data.to_log2CPM_in_place()
+            if data.normalization != 'log2CPM':
+                data.to_log2CPM_in_place()
 
-        # downsample to just include marker genes
-        # to limit memory footprint
-        data.downsample_genes_in_place(all_query_markers)
+            # downsample to just include marker genes
+            # to limit memory footprint
+            data.downsample_genes_in_place(all_query_markers)
 
-        p = multiprocessing.Process(
-                target=_run_type_assignment_on_h5ad_worker,
-                kwargs={
-                    'r0': r0,
-                    'r1': r1,
-                    'query_cell_chunk': data,
-                    'query_cell_names': name_chunk,
-                    'leaf_node_matrix': leaf_node_matrix,
-                    'marker_gene_cache_path': marker_gene_cache_path,
-                    'taxonomy_tree': taxonomy_tree,
-                    'bootstrap_factor_lookup': bootstrap_factor_lookup,
-                    'bootstrap_iteration': bootstrap_iteration,
-                    'rng': np.random.default_rng(rng.integers(99, 2**32)),
-                    'n_assignments': n_assignments,
-                    'output_list': output_list,
-                    'output_lock': output_lock,
-                    'results_output_path': buffer_dir})
-        p.start()
-        process_list.append(p)
-        while len(process_list) >= n_processors:
-            n0 = len(process_list)
+            p = multiprocessing.Process(
+                    target=_run_type_assignment_on_h5ad_worker,
+                    kwargs={
+                        'r0': r0,
+                        'r1': r1,
+                        'query_cell_chunk': data,
+                        'query_cell_names': name_chunk,
+                        'leaf_node_matrix': leaf_node_matrix,
+                        'marker_gene_cache_path': marker_gene_cache_path,
+                        'taxonomy_tree': taxonomy_tree,
+                        'bootstrap_factor_lookup': bootstrap_factor_lookup,
+                        'bootstrap_iteration': bootstrap_iteration,
+                        'rng': np.random.default_rng(rng.integers(99, 2**32)),
+                        'n_assignments': n_assignments,
+                        'output_list': output_list,
+                        'output_lock': output_lock,
+                        'results_output_path': buffer_dir})
+            p.start()
+            process_list.append(p)
+            while len(process_list) >= n_processors:
+                n0 = len(process_list)
+                process_list = winnow_process_list(process_list)
+                n1 = len(process_list)
+                if n1 < n0:
+                    row_ct += (n0-n1)*chunk_size
+                    print_timing(
+                        t0=t0,
+                        i_chunk=row_ct,
+                        tot_chunks=tot_rows,
+                        unit='hr')
+
+        while len(process_list) > 0:
             process_list = winnow_process_list(process_list)
-            n1 = len(process_list)
-            if n1 < n0:
-                row_ct += (n0-n1)*chunk_size
-                print_timing(
-                    t0=t0,
-                    i_chunk=row_ct,
-                    tot_chunks=tot_rows,
-                    unit='hr')
-
-    while len(process_list) > 0:
-        process_list = winnow_process_list(process_list)
+    except Exception:
+        # a worker failed: do not leave the other workers running (and
+        # writing their results) behind a call that has already raised
+        for p in process_list:
+            if p.exitcode is None:
+                p.terminate()
+        for p in process_list:
+            p.join()
+        raise
 
     if buffer_dir is not None:
         path_list = [n for n in buffer_dir.iterdir()]
